@@ -7,7 +7,7 @@ and callable parameter independently one of the 9 / 5 flavours, with suspensions
 be identical; the object each public callable returns must be awaitable / an async iterator.
 """
 
-from ..actors import World, SrcPlan, FnPlan, ident, is_source_item, FAULT_TYPES
+from ..actors import World, SrcPlan, FnPlan, ident, is_source_item, FAULT_TYPES, make_fault, LOGGING_FLAVOURS
 from ..runner import Outcome
 from ..tools import TOOLS, AGGS, TOOL_NAMES, AGG_NAMES, Gen, Spec, draw_cfg, lib, ABSENT
 from ..tooldiff import Run, drive_tool, drive_agg, project_values, first_diff, build_async, _objs
@@ -76,13 +76,14 @@ def failing_iter(ch, spec):
     p.iter_fault = FAULT_TYPES[ch.draw(len(FAULT_TYPES))]
 
 
-def baseline_of(spec):
+def baseline_of(spec, keep=()):
     alias = spec.p.get("alias")
     # an iterable that cannot be opened keeps its flavour in the baseline: *when* it is opened differs between sync
     # (lazily adapted) and async (eager) iterables by design, so the comparison varies the flavours of everything else
-    srcs = [SrcPlan(p.name, p.items, p.flavour if p.iter_fault is not None else
+    # (likewise a source that is prepared to fail at one of its pulls: a plain list cannot fail)
+    srcs = [SrcPlan(p.name, p.items, p.flavour if (p.iter_fault is not None or p.name in keep) else
                     ("sync_iter" if (alias and n == alias[0]) else "list"),
-                    p.suspend if p.iter_fault is not None else (), iter_fault=p.iter_fault)
+                    p.suspend if (p.iter_fault is not None or p.name in keep) else (), iter_fault=p.iter_fault)
             for n, p in enumerate(spec.srcs)]
     # a class used as the callable is a synchronous callable giving instances: it has no "async twin", both runs use it
     fns = [FnPlan(p.name, p.kind, p.param, "cls_async_call" if p.flavour == "cls_async_call" else "def")
@@ -366,15 +367,36 @@ def execute_tools(st, ctx, out):
         spec = (AGGS if is_agg else TOOLS)[name].gen(g)
         if name == "sum" and ch.chance(1, 2):
             spec = tricky_sum(g)
+        faults = None
         if ch.chance(1, 10):
             failing_iter(ch, spec)
-        base = baseline_of(spec)
+        elif ch.chance(1, 8) and any(f is not None for f in spec.fns) and not spec.p.get("alias") \
+                and not (spec.tool == "chain" and spec.p.get("form") == 2) and not spec.p.get("nested"):
+            # a callable prepared to fail at one of its first calls - and, half of the time, a source prepared to fail at
+            # one of its pulls as well (that source has one flavour in both runs): whichever failure the one assignment
+            # of flavours lets out, every other assignment lets out too
+            fn = [f for f in spec.fns if f is not None][0]
+            f1 = (fn.name, ch.draw(3), make_fault(ch.draw(len(FAULT_TYPES)), "callable-fault"))
+            f2 = None
+            cands = [p for p in spec.srcs if p.flavour in LOGGING_FLAVOURS]
+            if cands and ch.chance(1, 2):
+                p = cands[ch.draw(len(cands))]
+                f2 = (p.name, ch.draw(len(p.items) + 2), make_fault(ch.draw(len(FAULT_TYPES)), "source-fault"))
+            faults = (f1, f2)
+            if spec.tool == "tee":
+                spec.p["carry_on"] = False
+        base = baseline_of(spec, keep=(faults[1][0],) if faults and faults[1] else ())
         steps = None
         if not is_agg and TOOLS[name].infinite:
             steps = bounded_steps(ch, spec)
         runs = []
         for sp in (base, spec):
             run = Run(World(sim, own_log=True))
+            if faults is not None:
+                run.world.set_fault(*faults[0])
+                run.world.fault2 = faults[1]
+                out.faults["callable_prepared_to_fail"] = 1
+                out.fault_free = False
             if is_agg:
                 sim.spawn(drive_agg(sp, run))
             else:
